@@ -414,6 +414,73 @@ Proof.
   replace (0 + 1 + dh) with (dh + 1) by lia. reflexivity.
 Qed.
 
+(* ---------------------------------- the association lists really are dictionaries *)
+
+Definition keys_unique (d : column) : Prop := NoDup (map fst d).
+
+Lemma dict_set_keys : forall k v d x,
+  In x (map fst (dict_set k v d)) -> x = k \/ In x (map fst d).
+Proof.
+  induction d as [|[k' v'] r IH]; intros x H; cbn in *.
+  - destruct H as [<-|[]]. left. reflexivity.
+  - destruct (String.eqb k k') eqn:E; cbn in H.
+    + apply String.eqb_eq in E. subst k'. destruct H as [<-|H]; auto.
+    + destruct H as [<-|H]; auto. apply IH in H. destruct H; auto.
+Qed.
+
+Lemma dict_set_unique : forall k v d, keys_unique d -> keys_unique (dict_set k v d).
+Proof.
+  unfold keys_unique. induction d as [|[k' v'] r IH]; intros H; cbn.
+  - constructor; [intros []|constructor].
+  - inversion H as [|? ? Hn Hr]; subst. destruct (String.eqb k k') eqn:E; cbn.
+    + apply String.eqb_eq in E. subst k'. constructor; assumption.
+    + constructor; [|apply IH; exact Hr].
+      intros Hin. apply dict_set_keys in Hin. destruct Hin as [->|Hin]; [|exact (Hn Hin)].
+      rewrite String.eqb_refl in E. discriminate.
+Qed.
+
+Lemma add_values_unique : forall key vals out,
+  Forall keys_unique out -> Forall keys_unique (add_values key vals out).
+Proof.
+  induction vals as [|v vs IH]; intros out H; cbn; [exact H|].
+  destruct out as [|c cs].
+  - constructor.
+    + destruct (cell_empty v); unfold keys_unique; cbn; [constructor|].
+      constructor; [intros []|constructor].
+    + apply IH. constructor.
+  - inversion H as [|? ? Hc Hcs]; subst. constructor.
+    + destruct (cell_empty v); [exact Hc|apply dict_set_unique; exact Hc].
+    + apply IH. exact Hcs.
+Qed.
+
+Lemma read_dict_list_unique : forall rows, Forall keys_unique (read_dict_list rows).
+Proof.
+  intros rows. unfold read_dict_list.
+  assert (G : forall rs out, Forall keys_unique out -> Forall keys_unique (fold_left add_row rs out)).
+  { induction rs as [|r rs IH]; intros out H; cbn; [exact H|].
+    apply IH. unfold add_row. destruct r as [|k vals]; [exact H|].
+    destruct (cell_empty k || starts_hash (c_text k)); [exact H|].
+    apply add_values_unique. exact H. }
+  apply G. constructor.
+Qed.
+
+(* on a dictionary, pop removes the key altogether (as dict.pop does) *)
+Lemma dict_pop_removes : forall k d c d',
+  keys_unique d -> dict_pop k d = Some (c, d') ->
+  ~ In k (map fst d') /\ keys_unique d' /\ (forall x, In x (map fst d') -> In x (map fst d)).
+Proof.
+  unfold keys_unique. induction d as [|[k' v] r IH]; intros c d' Hu H; cbn in H; [discriminate|].
+  inversion Hu as [|? ? Hn Hr]; subst.
+  destruct (String.eqb k k') eqn:E.
+  - apply String.eqb_eq in E. subst k'. injection H as <- <-.
+    split; [exact Hn|]. split; [exact Hr|]. intros x Hx. right. exact Hx.
+  - destruct (dict_pop k r) as [[c1 r1]|] eqn:P; [|discriminate]. injection H as <- <-.
+    destruct (IH c1 r1 Hr eq_refl) as [H1 [H2 H3]]. cbn. split; [|split].
+    + intros [->|Hin]; [rewrite String.eqb_refl in E; discriminate|exact (H1 Hin)].
+    + constructor; [|exact H2]. intros Hin. apply Hn. apply H3. exact Hin.
+    + intros x [<-|Hx]; [left; reflexivity|right; apply H3; exact Hx].
+Qed.
+
 (* ------------------------------------------------ non-vacuity witnesses *)
 
 Module C28Example.
